@@ -266,3 +266,73 @@ class RegistryMerge:
 
     def ensures_other_kept(self, other, result):
         return contents_as_old(other._registry)
+
+
+# ------------------------------------------------------------------------------------------------ add_methods (C15)
+from spec.prims import define, has_type
+
+
+def _last_writer(k):
+    """index of the LAST of the first k items of add_methods(*methods) that registers the generic key (-1: none).  An
+    uninterpreted function with a recursive definition whose instances (`define`) are stated along the induction: the
+    explicit witness of "some item registered this key, and no later one did" - no existential reaches the solver"""
+    return ufvt('c15_last_writer', 'int', k)
+
+
+def _item_key(self, m):
+    # C15: a Method is registered under its own name, a plain function under prefix + '.' + __name__
+    if isinstance(m, Method):
+        return m.name
+    if has_type(m, '=UserMethod'):
+        return qual(self._prefix, m.__name__)
+    return None
+
+
+def _written_by(now, m, q):
+    if isinstance(m, Method):
+        return same(now, m)
+    return isinstance(now, Method) and same(now.method, m) and same(now.name, q)
+
+
+def _after_items(self, xs, k, q, now, before, inductive):
+    if inductive:
+        define(_last_writer(0) == -1)
+        if k > 0:
+            define(_last_writer(k) == (k - 1 if _item_key(self, xs[k - 1]) == q else _last_writer(k - 1)))
+    j = _last_writer(k)
+    if j == -1:
+        return same(now, before)
+    return 0 <= j and j < k and _item_key(self, xs[j]) == q and _written_by(now, xs[j], q)
+
+
+@contract('pjrpc.server.dispatcher:MethodRegistry.add_methods@c15', props=['C15'])
+class RegistryAddMethods:
+    """C15: after add_methods(*methods) an ARBITRARY key q (hand-skolemised universal) is exactly what it was unless one of
+    the items registers it - a Method under its own name, a plain function under prefix + '.' + __name__ - and then it holds
+    what the LAST such item put there (a later registration replaces an earlier one).
+    (A proof-only variant `@c15`: at its call site in MethodRegistry.add the function stays inlined, so that add keeps its
+    stronger single-key postcondition.)"""
+    types = {'self': 'pjrpc.server.dispatcher:MethodRegistry', 'methods': '=tuple'}
+    raises_only = ()
+    modifies = ('$containers', '*.__pjrpc_meta__')
+    cross_check = False
+    loop0 = {'modifies': ['$containers', '*.__pjrpc_meta__'], 'index': 'k'}
+
+    def requires_items(self, methods):
+        return ((self._prefix is None or isinstance(self._prefix, str))
+                and all((isinstance(m, Method) and isinstance(m.name, str))
+                        or (has_type(m, '=UserMethod') and len(m.__name__) > 0) for m in methods))
+
+    def invariant0_items_kept(self, methods, xs, k):
+        # (the coarse loop frame $containers forgets the contents of every pre-existing container, the argument tuple too)
+        return contents_unchanged(methods)
+
+    def invariant0_key(self, methods, xs, k):
+        q = _generic_key()
+        return _after_items(self, xs, k, q, member(self._registry, q), at_entry(member(self._registry, q)), True)
+
+    def ensures_key(self, methods, result):
+        q = _generic_key()
+        ms = old(tuple(methods))            # the items as passed (tuples are immutable; the coarse frame forgets that)
+        return result is None and _after_items(self, ms, len(ms), q, member(self._registry, q),
+                                               old(member(self._registry, q)), False)
